@@ -65,6 +65,7 @@ struct elem {
 };
 #define RN_OFF(c) (offsetof(struct elem, rn) + (size_t)(c) * sizeof(struct cstl_rbtree_node))
 #define BN_OFF(c) (RN_OFF(c) + offsetof(struct cstl_rbtree_node, n))
+static unsigned init_toggle;
 
 static struct elem *pool[MAXE];
 static int freeids[MAXE], nfree;
@@ -217,11 +218,16 @@ static void st_create(int scope)
         if (is_rb) {
             RT[t] = vrt_alloc(sizeof(*RT[t]));
             memset(RT[t], 0x5e, sizeof(*RT[t]));
-            cstl_rbtree_init(RT[t], cmp_key, &cmp_token, RN_OFF(cls[t]));
+            /* both documented ways of making a tree: the init function and (every other time) the static initialiser */
+            if (++init_toggle & 1) cstl_rbtree_init(RT[t], cmp_key, &cmp_token, RN_OFF(cls[t]));
+            else if (cls[t]) *RT[t] = (struct cstl_rbtree)CSTL_RBTREE_INITIALIZER(struct elem, rn[1], cmp_key, &cmp_token);
+            else *RT[t] = (struct cstl_rbtree)CSTL_RBTREE_INITIALIZER(struct elem, rn[0], cmp_key, &cmp_token);
         } else {
             BT[t] = vrt_alloc(sizeof(*BT[t]));
             memset(BT[t], 0x5e, sizeof(*BT[t]));
-            cstl_bintree_init(BT[t], cmp_key, &cmp_token, BN_OFF(cls[t]));
+            if (++init_toggle & 1) cstl_bintree_init(BT[t], cmp_key, &cmp_token, BN_OFF(cls[t]));
+            else if (cls[t]) *BT[t] = (struct cstl_bintree)CSTL_BINTREE_INITIALIZER(struct elem, rn[1].n, cmp_key, &cmp_token);
+            else *BT[t] = (struct cstl_bintree)CSTL_BINTREE_INITIALIZER(struct elem, rn[0].n, cmp_key, &cmp_token);
         }
         Mn[t] = 0;
         memset(cnt[t], 0, (nkeys + 2) * sizeof(cnt[t][0]));
